@@ -14,7 +14,7 @@ func commonType(a px.Type, b px.Type) px.Type {
 		return a
 	}
 	if isAssignable(b, a) {
-		return a
+		return b
 	}
 
 	// Deal with mergable string types
